@@ -181,7 +181,7 @@ def tb2(ctx, R):
     for f in region(ctx, ti):
         sy_ = Sym(prog, f, f.cls, inline=False)
         for c in walk_body(f.node):
-            if isinstance(c, ast.Call) and call_name(c) == "_verify_contiguous" and c.args:
+            if isinstance(c, ast.Call) and (call_name(c) or "").split(".")[-1] == vc.name and c.args:
                 env, _g = sy_.env_at(c)
                 a = sy_.expr(c.args[0], env)
                 expanded = [a]
@@ -198,7 +198,7 @@ def tb2(ctx, R):
                 continue
             sy_ = Sym(prog, f, f.cls, inline=False)
             for c in walk_body(f.node):
-                if isinstance(c, ast.Call) and call_name(c) == "_verify_contiguous" and c.args:
+                if isinstance(c, ast.Call) and (call_name(c) or "").split(".")[-1] == vc.name and c.args:
                     for c2 in [x for x in walk_body(ti.node) if isinstance(x, ast.Call) and isinstance(x.func, (ast.Name, ast.Attribute))
                                and prog.resolve_class(ti.module, x.func) is f.cls and f.name == "__init__"]:
                         st_ = Sym(prog, ti, ti.cls, inline=False)
